@@ -195,6 +195,9 @@ def run(rep):
             rep.violation('SshRecord|%s|payload-length' % clause, 'binary packet for payload length %d: %s' % (e['n'], clause), e)
         else:
             field = e['origin'].replace('variant:', '') if e['origin'].startswith('variant:') else e['origin']
+            if e['kind'].startswith('cert_') and clause == 'layout-differs-from-specification' and \
+                    any(o['k'] == 'string' for o in e['abs']['options'] + e['abs']['extensions']):
+                field = 'string-valued-option'        # one cause: the data of force-command / source-address
             rep.violation('%s|%s|%s' % (e['cls'], clause, field), '%s (%s): %s [%s]' % (e['cls'], e['kind'], clause, e['origin']),
                           {'kind': e['kind'], 'abs': e['abs'], 'wire_hex': bytes(e['wire']).hex()[:600], 'origin': e['origin']})
     rep.assumptions += ['SshWire.tla is my transcription of RFC 4251/4253/4419/5656/8709; OpenSSH certificate layouts are not transcribed '
